@@ -711,31 +711,6 @@ Proof.
     apply pick_refines; assumption.
 Qed.
 
-(* ---------- n steps ---------- *)
-Theorem steps_refine_thm p : wf_prog_b ty sv p = true ->
-  forall n fi l x, good_x x -> run_ok n p (mksc fi l (abs sv x)) = true ->
-  run_refines sv p (run lift n (mkd p (mkploc (Some fi) l) x)) (sem_prun n p (mksc fi l (abs sv x))).
-Proof.
-  intros WP. induction n as [|n IH]; intros fi l x G RO.
-  - cbn [run sem_prun run_refines sc_fi sc_loc sc_st]. exists x. auto.
-  - cbn [run_ok] in RO. apply andb_prop in RO as [OK RO]. unfold ok_at in OK. cbn [sc_fi sc_loc sc_st] in OK.
-    destruct (program_function p fi) as [f|] eqn:PF; [|discriminate OK].
-    apply andb_prop in OK as [OK TA]. apply andb_prop in OK as [VA DA]. apply negb_true_iff in TA.
-    destruct (floc_apply f l) as [l0| |] eqn:FA; try discriminate VA.
-    pose proof (floc_apply_id _ _ _ FA) as ->.
-    assert (PA : ploc_apply p (mkploc (Some fi) l) = Ok (fi, l)).
-    { unfold ploc_apply. cbn [pl_func pl_loc]. rewrite PF, FA. reflexivity. }
-    pose proof (step_refines_inv p _ fi l f x WP PA PF G DA TA) as SR.
-    cbn [run sem_prun]. unfold sem_pstep in *. cbn [sc_fi sc_loc sc_st] in *. rewrite PF in *.
-    destruct (sem_step f l (abs sv x)) as [l' st' ev|a st'|st' ev|e]; cbn [refines'] in SR.
-    + destruct SR as (x' & -> & <- & G'). cbn [bind]. apply IH; assumption.
-    + destruct (from_address p a) as [[k l']|].
-      * destruct SR as (x' & -> & <- & G'). cbn [bind]. apply IH; assumption.
-      * exact I.
-    + rewrite SR. reflexivity.
-    + rewrite SR. reflexivity.
-Qed.
-
 (* ---------- frame (a theorem about the model alone) ---------- *)
 Definition op_frame (o : operation) (x x' : xstate) : Prop :=
   match o with
@@ -946,12 +921,6 @@ Proof.
   intros WP PA PF T M DA TA. apply (refines'_refines ty).
   apply step_refines_inv; try assumption. apply good_of_b; assumption.
 Qed.
-
-Theorem steps_refine_main p n fi l x :
-  wf_prog_b ty sv p = true -> typed_b ty (x_scal x) = true -> mem_ok_b (x_mem x) = true ->
-  run_ok n p (mksc fi l (abs sv x)) = true ->
-  run_refines sv p (run lift n (mkd p (mkploc (Some fi) l) x)) (sem_prun n p (mksc fi l (abs sv x))).
-Proof. intros WP T M RO. apply (steps_refine_thm ty); try assumption. apply good_of_b; assumption. Qed.
 
 Theorem step_deterministic_main p pl fi l f x c' :
   wf_prog_b ty sv p = true -> ploc_apply p pl = Ok (fi, l) -> program_function p fi = Some f ->
